@@ -500,6 +500,61 @@ def heapsort_shape(psrc):
             f"def PS_heapPopHi (len : Nat) : Nat := {rust_arith(pop.group(2), ['len'])}", ""]
 
 
+
+def fn_bodies(src):
+    """name -> list of body texts of every `fn name` in src (brace matching; comments already stripped)"""
+    bodies = {}
+    for m in re.finditer(r"\bfn\s+([a-zA-Z_0-9]+)", src):
+        i = src.find("{", m.end())
+        semi = src.find(";", m.end())
+        if i < 0 or (0 <= semi < i):
+            continue  # a declaration without body
+        depth, j = 1, i + 1
+        while depth and j < len(src):
+            depth += {"{": 1, "}": -1}.get(src[j], 0)
+            j += 1
+        bodies.setdefault(m.group(1), []).append(src[i:j])
+    return bodies
+
+
+def bucket_init_before_publish(b):
+    """Program order of bucket allocation (C09): the non-atomic initialisation of a fresh bucket's `active` flags
+    (`.write(AtomicBool::new(..))`) must be complete before the bucket pointer is published by the compare_exchange in
+    `get_or_alloc`, and no function that performs such writes may be reachable from anywhere else than `get_or_alloc`
+    (before its CAS) and `with_capacity` (the vector is not shared yet)."""
+    bodies = fn_bodies(b)
+    writers = {n for n, bs in bodies.items() if any(re.search(r"\.write\(\s*AtomicBool::new\(", x) for x in bs)}
+    if not writers:
+        raise TranslateError("boxcar.rs: no non-atomic initialisation of the `active` flags found")
+    changed = True
+    while changed:
+        changed = False
+        for n, bs in bodies.items():
+            if n in writers:
+                continue
+            if any(re.search(r"\b(?:Self::|Bucket::|Bucket::<T>::)?(%s)\(" % "|".join(map(re.escape, sorted(writers))), x) for x in bs):
+                if n not in ("get_or_alloc", "with_capacity"):
+                    writers.add(n)
+                    changed = True
+    call_re = re.compile(r"\b(?:Self::|Bucket::|Bucket::<T>::)?(%s)\(" % "|".join(map(re.escape, sorted(writers))))
+    goa = bodies.get("get_or_alloc")
+    if not goa:
+        raise TranslateError("boxcar.rs: get_or_alloc not found")
+    body = goa[0]
+    cas = body.find("compare_exchange")
+    if cas < 0:
+        raise TranslateError("boxcar.rs: get_or_alloc no longer publishes with compare_exchange")
+    calls = [m.start() for m in call_re.finditer(body)]
+    ok = bool(calls) and all(c < cas for c in calls)
+    # nobody else may initialise flags of a bucket that could already be shared
+    for n, bs in bodies.items():
+        if n in writers or n in ("get_or_alloc", "with_capacity"):
+            continue
+        if any(call_re.search(x) for x in bs):
+            ok = False
+    return ok
+
+
 def gen_boxcar():
     bsrc = read("src/boxcar.rs")
     cs, allc = consts_of(bsrc, ["SKIP", "SKIP_BUCKET", "BUCKETS", "MAX_ENTRIES"])
@@ -542,6 +597,10 @@ def gen_boxcar():
            "namespace NucleoVerif.Gen", ""]
     out.append("/-- does the loop of `Drop for Vec` stop at the first bucket whose pointer is null (`break`/`return`) instead of skipping it (`continue`)? -/")
     out.append(f"def dropStopsAtNull : Bool := {'true' if stops else 'false'}")
+    out.append("")
+    out.append("/-- in `get_or_alloc`, is every non-atomic initialisation of the fresh bucket's `active` flags sequenced before the compare_exchange "
+               "that publishes the bucket (and performed nowhere else on a bucket that may be shared)? -/")
+    out.append(f"def bucketInitBeforePublish : Bool := {'true' if bucket_init_before_publish(b) else 'false'}")
     out.append("")
     for n_ in ["SKIP", "SKIP_BUCKET", "BUCKETS", "MAX_ENTRIES"]:
         out.append(f"def {n_} : Nat := {cs[n_]}")
